@@ -395,8 +395,13 @@ namespace CDNS {
         void rotate_output(const boost::any& value) override {
             // Unlike close(), finish() reports failure to write the end of the compressed stream
             finish();
+
+            // If the rotation below opens the new output and then reports that the old one couldn't
+            // be completed, the new output still gets its stream: with the first data written to it
+            m_start_stream = true;
             m_writer->rotate_output(value);
             open();
+            m_start_stream = false;
         }
 
         private:
@@ -429,6 +434,7 @@ namespace CDNS {
 
         std::unique_ptr<BaseCborOutputWriter> m_writer;
         z_stream m_gzip;
+        bool m_start_stream = false; //!< Current output was opened by a rotation that threw, its stream isn't started yet
     };
 
     /**
@@ -473,8 +479,13 @@ namespace CDNS {
         void rotate_output(const boost::any& value) override {
             // Unlike close(), finish() reports failure to write the end of the compressed stream
             finish();
+
+            // If the rotation below opens the new output and then reports that the old one couldn't
+            // be completed, the new output still gets its stream: with the first data written to it
+            m_start_stream = true;
             m_writer->rotate_output(value);
             open();
+            m_start_stream = false;
         }
 
         private:
@@ -507,5 +518,6 @@ namespace CDNS {
 
         std::unique_ptr<BaseCborOutputWriter> m_writer;
         lzma_stream m_lzma;
+        bool m_start_stream = false; //!< Current output was opened by a rotation that threw, its stream isn't started yet
     };
 }
